@@ -88,6 +88,46 @@ std::string handle(const std::string& op, Args& a)
 		}
 		return res;
 	}
+	if(op == "c12.iseq")
+	{
+		// history of the INTEGRATING overload (func,a,b,n): all calls in one child, then every call alone in a
+		// fresh child together with the two rule-taking overloads on Compute_(n,a,b)
+		auto c	 = a.dbls();
+		size_t k = a.u64();
+		std::vector<unsigned> ns(k);
+		std::vector<double> lo(k), hi(k);
+		for(size_t i = 0; i < k; i++)
+		{
+			ns[i] = a.u64();
+			lo[i] = a.dbl();
+			hi[i] = a.dbl();
+		}
+		a.end();
+		auto f			= [&](double x) { return horner(c, x); };
+		std::string seq = run_forked([&](Out& o) {
+			for(size_t i = 0; i < k; i++)
+				o << Integrate_Gauss_Legendre(f, lo[i], hi[i], ns[i]);
+		});
+		if(seq.compare(0, 2, "ok") != 0)
+			return seq;
+		std::string res = "ok " + std::to_string(k) + seq.substr(2) + " alone";
+		for(size_t i = 0; i < k; i++)
+		{
+			std::string one = run_forked([&](Out& o) {
+				double r1 = Integrate_Gauss_Legendre(f, lo[i], hi[i], ns[i]);
+				auto rw	  = Compute_Gauss_Legendre_Roots_and_Weights(ns[i], lo[i], hi[i]);
+				double r2 = Integrate_Gauss_Legendre(f, rw);
+				std::vector<double> fv;
+				for(auto& p : rw)
+					fv.push_back(f(p[0]));
+				o << r1 << r2 << Integrate_Gauss_Legendre(fv, rw);
+			});
+			if(one.compare(0, 2, "ok") != 0)
+				return one;
+			res += one.substr(2);
+		}
+		return res;
+	}
 	if(op == "c12.sumvals")
 	{
 		auto v	= a.dbls();
